@@ -31,19 +31,21 @@ def _collect(d, out):
     return recs, race
 
 
-def _run(ctx, args, d):
+def _run(ctx, args, d, nohook=False):
     vh = ctx.build("./cmd/vh_mcat", race=True)
     e = _env(ctx, d)
+    if nohook:
+        e["VERIF_NOHOOK"] = "1"
     p = subprocess.run([vh] + args, env=e, capture_output=True, text=True, timeout=1800)
     if p.returncode not in (0, 66):
         raise Machinery("vh_mcat failed rc=%s\n%s\n%s" % (p.returncode, p.stdout[-2000:], p.stderr[-4000:]))
     return p
 
 
-def gen(ctx, seed, n, steps):
+def gen(ctx, seed, n, steps, nohook=False):
     d = ctx.sub("mcat")
     out = os.path.join(d, "hist.ndjson")
-    _run(ctx, ["gen", "-seed", str(seed), "-n", str(n), "-steps", str(steps), "-out", out], d)
+    _run(ctx, ["gen", "-seed", str(seed), "-n", str(n), "-steps", str(steps), "-out", out], d, nohook=nohook)
     recs, race = _collect(d, out)
     return recs, race, len(recs) < n   # fewer records: the harness stopped early after a hung call or three failed histories
 
@@ -68,6 +70,14 @@ def run(ctx):
         if race and recs:
             recs[-1]["race"] = race[:3000]     # attributed to the batch; replay re-runs the last history
         hists += recs
+    # hookless batches, for the race detector alone (the tracer's lock orders the goroutines and hides races): a race report
+    # becomes one record that carries nothing but the report and the batch it came from
+    for s in ([ctx.seed] if q else [ctx.seed + i for i in range(4)]):
+        n, steps = (25, 30) if q else (120, 30)
+        _, race, _ = gen(ctx, s + 750, n, steps, nohook=True)
+        if race:
+            hists.append({"id": 900000 + s, "kind": "midicat", "steps": [], "race": race[:3000], "events": [],
+                          "note": "nohook seed=%d n=%d steps=%d" % (s + 750, n, steps)})
     for h in hists:
         h.setdefault("race", "")
         if not h.get("events"):
@@ -158,3 +168,16 @@ def confirm_lines(ctx, f):
         if recs and ctx.validate("Trace_MidicatDrv", recs[:1], shards=1):
             return True
     return False
+
+
+def rerun_nohook(ctx, h):
+    """a race report of a hookless batch: run the same batch again (up to three times) and look for a report"""
+    import re
+    m = re.match(r"nohook seed=(\d+) n=(\d+) steps=(\d+)", h.get("note", ""))
+    if not m:
+        return False, h
+    for _ in range(3):
+        _, race, _ = gen(ctx, int(m.group(1)), int(m.group(2)), int(m.group(3)), nohook=True)
+        if race:
+            return True, dict(h, race=race[:3000])
+    return False, h
